@@ -24,7 +24,11 @@ for sid in ids:
     try:
         res = {}
         for p in props:
+            ev = os.path.join(ROOT, "evidence", p + ".json")       # evidence belongs to the unchanged tree: keep it
+            keep = open(ev).read() if os.path.exists(ev) else None
             out = subprocess.run([os.path.join(ROOT, "check"), p, "--tier", tier], capture_output=True, text=True, cwd=ROOT)
+            if keep is not None:
+                open(ev, "w").write(keep)
             sigs = sorted(set(re.findall(r"signature=(\S+)", out.stdout)))
             res[p] = {"exit": out.returncode, "violation_signatures": sigs}
             print("%s: check %s (%s) exit=%d %s" % (sid, p, tier, out.returncode, "; ".join(sigs)[:300] or "-"))
